@@ -227,10 +227,15 @@ func run(c *harness.Ctx) {
 				}
 			}
 			if legacy != "" {
+				// the single-address flag delivers a string; a configuration file may also hold a list
+				var lv any = []string{legacy}
+				if r.Intn(2) == 0 {
+					lv = legacy
+				}
 				if mode == 1 {
-					yamlPart = append(yamlPart, setting{Path: "", Var: "beacon-node-address", Val: []string{legacy}})
+					yamlPart = append(yamlPart, setting{Path: "", Var: "beacon-node-address", Val: lv})
 				} else {
-					viper.Set("beacon-node-address", []string{legacy})
+					viper.Set("beacon-node-address", lv)
 				}
 			}
 			if len(yamlPart) > 0 {
@@ -250,6 +255,13 @@ func run(c *harness.Ctx) {
 						lookups = append(lookups, ext)
 					} else {
 						lookups = append(lookups, p+"."+ext, p+"."+ext+"."+comps[r.Intn(len(comps))])
+					}
+					// per-client paths are built from the client's address (eth2client.<URL>): slashes, colons and periods
+					url := []string{"http://localhost:5052", "https://10.1.2.3:5052/", "node-1.example.com:5051", "http://user:pw@lh/eth"}[r.Intn(4)]
+					if p == "" {
+						lookups = append(lookups, url)
+					} else {
+						lookups = append(lookups, p+"."+url)
 					}
 				}
 			}
